@@ -23,6 +23,13 @@ pub fn run(args: &Args, cfg: &StreamCfg, rep: &mut Report, f: &mut dyn FnMut(&Po
 /// *sequence* of moves on the real board (rights flags, e.p. square, clocks) is observed too.
 /// The callback receives the carried board (None once a move could not be found or a call panicked).
 pub fn run_carried(args: &Args, cfg: &StreamCfg, rep: &mut Report, f: &mut dyn FnMut(&Pos, &mut Report, &mut StdRng, Option<&mut inkayaku_board::Bitboard>)) {
+    run_carried2(args, cfg, rep, &mut |p, rep, rng, a, _| f(p, rep, rng, a));
+}
+
+/// As `run_carried`, with a second board that is advanced through the public `make_uci(text)` —
+/// the path the engine's `position ... moves` and the Lichess bot use.
+#[allow(clippy::type_complexity)]
+pub fn run_carried2(args: &Args, cfg: &StreamCfg, rep: &mut Report, f: &mut dyn FnMut(&Pos, &mut Report, &mut StdRng, Option<&mut inkayaku_board::Bitboard>, Option<&mut inkayaku_board::Bitboard>)) {
     let mut rng = gen::rng(args.seed, args.shard, 1);
     let mut starts = Starts::new(cfg.max_half, cfg.max_full, (args.shard as usize) * 7 + (args.seed as usize % 1000));
     let per_shard = (cfg.positions / args.nshards.max(1)).max(1);
@@ -38,9 +45,10 @@ pub fn run_carried(args: &Args, cfg: &StreamCfg, rep: &mut Report, f: &mut dyn F
         let len = rng.gen_range(1..=max);
         let mut cur = start.clone();
         let mut carried = crate::adapter::load(&start).ok();
+        let mut carried_uci = crate::adapter::load(&start).ok();
         walks += 1;
         for _ in 0..len {
-            f(&cur, rep, &mut rng, carried.as_mut());
+            f(&cur, rep, &mut rng, carried.as_mut(), carried_uci.as_mut());
             visited += 1;
             if visited >= per_shard {
                 break;
@@ -54,6 +62,13 @@ pub fn run_carried(args: &Args, cfg: &StreamCfg, rep: &mut Report, f: &mut dyn F
                 Some(mut bb) => {
                     let u = m.uci();
                     match monlib::guarded_mut(|| { match crate::adapter::find_move(&bb, &u) { Some(mv) => { bb.make(mv); Some(bb) } None => None } }) { Ok(x) => x, Err(_) => None }
+                }
+                None => None,
+            };
+            carried_uci = match carried_uci {
+                Some(mut bb) => {
+                    let u = m.uci();
+                    match monlib::guarded_mut(|| { if bb.make_uci(&u).is_ok() { Some(bb) } else { None } }) { Ok(x) => x, Err(_) => None }
                 }
                 None => None,
             };
